@@ -193,7 +193,7 @@ func (fr *frame) execInstr(st *state, in ssa.Instruction) {
 			// merge sub back into st
 			for k, t := range sub.heap {
 				if fc.hget(st, k) != t {
-					st.heap[k] = sc.define("hd_"+shortKey(k), heapSort(u, k), ite(d.armed, t, fc.hget(st, k)))
+					st.heap[k] = sc.defineConst("hd_"+shortKey(k), heapSort(u, k), ite(d.armed, t, fc.hget(st, k)))
 				}
 			}
 			if sub.alloc != st.alloc {
@@ -223,6 +223,13 @@ func (fr *frame) execInstr(st *state, in ssa.Instruction) {
 					}
 				}
 				fr.oblige(st, "ifacenn", fr.anchorText(v.Pos(), "stmt"), v.Pos(), cond, "typed nil pointer stored in an interface")
+			}
+		}
+		if _, isFn := v.X.Type().Underlying().(*types.Signature); isFn && fr.sweepOn() {
+			if _, isMC := v.X.(*ssa.MakeClosure); !isMC {
+				if _, isF := v.X.(*ssa.Function); !isF {
+					fr.oblige(st, "ifacenn", fr.anchorText(v.Pos(), "stmt"), v.Pos(), fmt.Sprintf("(not (= %s 0))", fr.val(v.X)), "nil func stored in an interface")
+				}
 			}
 		}
 		fr.regs[v] = fr.makeIface(st, fr.val(v.X), v.X.Type())
@@ -275,6 +282,9 @@ func (fr *frame) execInstr(st *state, in ssa.Instruction) {
 		m := fr.val(v.Map)
 		k := fr.mapKey(st, fr.val(v.Key), v.Key.Type(), ks)
 		fr.markEscaped(st, fr.val(v.Value), v.Value.Type())
+		if fc.e.mapInvKeys[mv] && fr.sweepOn() {
+			fr.oblige(st, "mapinv", fr.anchorText(v.Pos(), "stmt"), v.Pos(), nonNilTerm(fr.val(v.Value), u.sortOf(v.Value.Type())), "values of this map must never be nil")
+		}
 		if fr.sweepOn() {
 			fr.oblige(st, "mapnil", fr.anchorText(v.Pos(), "stmt"), v.Pos(), fmt.Sprintf("(not (= %s 0))", m), "assignment to entry in nil map")
 		}
@@ -457,7 +467,18 @@ func (fr *frame) execBinOp(st *state, v *ssa.BinOp) {
 	case token.SUB:
 		t = app("-", x, y)
 	case token.MUL:
-		t = app("*", x, y)
+		_, cx := v.X.(*ssa.Const)
+		_, cy := v.Y.(*ssa.Const)
+		if cx || cy {
+			t = app("*", x, y)
+		} else if rs == "Real" {
+			// products of two unknowns are kept abstract (nonlinear arithmetic would poison unrelated goals)
+			u.global("(declare-fun rmul (Real Real) Real)")
+			t = app("rmul", x, y)
+		} else {
+			u.global("(declare-fun imul (Int Int) Int)")
+			t = app("imul", x, y)
+		}
 	case token.QUO:
 		if rs == "Real" {
 			t = app("/", x, y)
@@ -465,13 +486,23 @@ func (fr *frame) execBinOp(st *state, v *ssa.BinOp) {
 			if fr.sweepOn() {
 				fr.oblige(st, "div", fr.anchorText(v.Pos(), "div"), v.Pos(), not(eq(y, "0")), "integer divide by zero")
 			}
-			t = gdiv(x, y)
+			if _, cy := v.Y.(*ssa.Const); cy {
+				t = gdiv(x, y)
+			} else {
+				u.global("(declare-fun iquo (Int Int) Int)")
+				t = app("iquo", x, y)
+			}
 		}
 	case token.REM:
 		if fr.sweepOn() {
 			fr.oblige(st, "div", fr.anchorText(v.Pos(), "div"), v.Pos(), not(eq(y, "0")), "integer divide by zero")
 		}
-		t = fmt.Sprintf("(- %s (* %s %s))", x, y, gdiv(x, y))
+		if _, cy := v.Y.(*ssa.Const); cy {
+			t = fmt.Sprintf("(- %s (* %s %s))", x, y, gdiv(x, y))
+		} else {
+			u.global("(declare-fun irem (Int Int) Int)")
+			t = app("irem", x, y)
+		}
 	case token.AND, token.OR, token.XOR, token.SHL, token.SHR, token.AND_NOT:
 		if rs == "Bool" {
 			switch v.Op {
@@ -559,6 +590,10 @@ func (fr *frame) execTypeAssert(st *state, v *ssa.TypeAssert) {
 	if pt, isPtr := v.AssertedType.Underlying().(*types.Pointer); isPtr && u.structInfoOf(pt.Elem()) != nil {
 		sc.assume(implies(ok, fmt.Sprintf("(not (= %s 0))", val)))
 	}
+	if _, isFn := v.AssertedType.Underlying().(*types.Signature); isFn {
+		// func values created by the library are closures, never nil (checked where they are boxed)
+		sc.assume(implies(ok, fmt.Sprintf("(not (= %s 0))", val)))
+	}
 	if v.CommaOk {
 		fr.tuples[v] = []string{val, ok}
 		return
@@ -592,12 +627,15 @@ func (fr *frame) execConvert(st *state, v *ssa.Convert) {
 		// implementation-defined value (no panic)
 		u.global("(declare-fun f2i (Real) Int)")
 		r := sc.define("toint", "Int", app("f2i", x))
-		trunc := fmt.Sprintf("(ite (>= %s 0.0) (to_int %s) (- (to_int (- %s))))", x, x, x)
-		sc.assume(fmt.Sprintf("(=> (and (> %s (- 9000000000000000000.0)) (< %s 9000000000000000000.0)) (= %s %s))", x, x, r, trunc))
+		// truncation toward zero, characterised by linear bounds (no to_int in the query)
+		truncOf := func(r string) string {
+			return fmt.Sprintf("(ite (>= %s 0.0) (and (<= (to_real %s) %s) (< %s (+ (to_real %s) 1.0))) (and (>= (to_real %s) %s) (> %s (- (to_real %s) 1.0))))", x, r, x, x, r, r, x, x, r)
+		}
+		sc.assume(fmt.Sprintf("(=> (and (> %s (- 9000000000000000000.0)) (< %s 9000000000000000000.0)) %s)", x, x, truncOf(r)))
 		if bt, ok := v.Type().Underlying().(*types.Basic); ok && bt.Info()&types.IsUnsigned != 0 {
 			u.global("(declare-fun f2u (Real) Int)")
 			r2 := sc.define("touint", "Int", app("f2u", x))
-			sc.assume(fmt.Sprintf("(and (>= %s 0) (=> (and (>= %s 0.0) (< %s 9000000000000000000.0)) (= %s %s)))", r2, x, x, r2, trunc))
+			sc.assume(fmt.Sprintf("(and (>= %s 0) (=> (and (>= %s 0.0) (< %s 9000000000000000000.0)) %s))", r2, x, x, truncOf(r2)))
 			r = r2
 		}
 		fr.regs[v] = r
@@ -738,6 +776,9 @@ func (fr *frame) execLookup(st *state, v *ssa.Lookup) {
 	val := sc.define("mapval", vs, ite(ok, fmt.Sprintf("(select (select %s %s) %s)", fc.hget(st, mv), m, k), u.zero(vs)))
 	mt := v.X.Type().Underlying().(*types.Map)
 	fr.typeInv(st, val, vs, mt.Elem(), false)
+	if fc.e.mapInvKeys[mv] {
+		sc.assume(implies(ok, nonNilTerm(val, vs)))
+	}
 	if v.CommaOk {
 		fr.tuples[v] = []string{val, ok}
 	} else {
@@ -816,6 +857,9 @@ func (fr *frame) execNext(st *state, v *ssa.Next) {
 	val := sc.define("mval", vs, fmt.Sprintf("(select (select %s %s) %s)", fc.hget(st, mv), m, k))
 	mt := ri.typ.Underlying().(*types.Map)
 	fr.typeInv(st, val, vs, mt.Elem(), false)
+	if fc.e.mapInvKeys[mv] {
+		sc.assume(implies(ok, nonNilTerm(val, vs)))
+	}
 	fc.hset(st, "IT", app("store", fc.hget(st, "IT"), it, "(+ "+pos+" 1)"))
 	// the key as a Go value: for string keys we need a Str whose skey is k
 	kt := mt.Key()
